@@ -294,6 +294,14 @@ def run():
         virtual_ann = rng.random() < 0.7
         for pid, key in enumerate(order, 1):
             b, text = make_block(key, kinds.get(key, 'none'), pid + 100 * (n % 50), rng, full=full)
+            if kinds.get(key) == 'enum':
+                # the enumeration's block also describes, inline, the members that have a block of their OWN in
+                # this case (@FOO_ENUM_B: text): the member's own block still is the one that documents it
+                mine = [m for m in order if kinds.get(m) == 'member' and m.startswith('FOO_ENUM_' if key == 'FooEnum' else 'FOO_FLAGS_')]
+                if mine:
+                    inline = ''.join(' * @%s: inline text of %s in the block of %s\n' % (m, m, key) for m in mine)
+                    tl = text.split('\n')                         # ['/**', ' * key: anns', ...]: after the identifier line
+                    text = '\n'.join(tl[:2] + inline.rstrip('\n').split('\n') + tl[2:])
             if key in ('foo_obj_call_by_ann', 'foo_obj_b_call_by_ann') and virtual_ann:
                 text = text.replace(' * %s:' % key, ' * %s: (virtual by_ann)' % key, 1)
             blocks.append(b)
